@@ -73,7 +73,7 @@ func ruleMacBeforeDecrypt(c *eng.Ctx) {
 	}
 	// a nil error is returned only after decryption
 	for _, r := range eng.Returns(fn) {
-		if len(r.Results) == 2 && c.P.MayBeNil(r.Results[1]) {
+		if len(r.Results) == 2 && c.P.MayBeNil(eng.RetVal(r, 1)) {
 			c.MustPass(rule, "Key.Open:nil-error-only-after-verify", eng.Entry(fn), r,
 				eng.ResultCut(true, 0, verify...), "true branch of poly1305Verify before a nil-error return")
 		}
@@ -205,7 +205,7 @@ func ruleCryptoConsts(c *eng.Ctx) {
 		}
 		ok := true
 		for _, r := range eng.Returns(fn) {
-			v, isK := eng.ConstInt(r.Results[0])
+			v, isK := eng.ConstInt(eng.RetVal(r, 0))
 			if !isK || v != want {
 				ok = false
 			}
@@ -273,7 +273,7 @@ func ruleRNG(c *eng.Ctx) {
 		// the returned object is the one that was filled
 		for _, r := range eng.Returns(fn) {
 			okAll := len(r.Results) > 0
-			for _, root := range eng.Origins(r.Results[0], nil) {
+			for _, root := range eng.Origins(eng.RetVal(r, 0), nil) {
 				if !bases[baseOf(root)] {
 					okAll = false
 				}
